@@ -2366,6 +2366,9 @@ impl Term<Name> {
                 let mut known_single = false;
 
                 if let Some(count) = context.occurrences.trusted_count(parameter_name) {
+                    #[cfg(feature = "verif-hooks")]
+                    crate::verif::inline_trusted(parameter_name, body, count);
+
                     match count {
                         0 => {
                             if cant_throw_condition || force_wrapped_builtin {
